@@ -26,4 +26,13 @@ impl VxStr for str {
 
 pub assume_specification<'a> [std::str::from_utf8_unchecked] (v: &'a [u8]) -> (r: &'a str)
     ensures vx_utf8(r@) == v@;
+
+#[verifier::external_type_specification]
+#[verifier::external_body]
+pub struct ExParseIntError(std::num::ParseIntError);
+/// R9 wrapper for `str::parse::<usize>()` (decimal parsing itself is trusted, no contract needed by any property)
+pub trait VxParse { fn vx_parse_usize(&self) -> (r: Result<usize, std::num::ParseIntError>); }
+impl VxParse for String {
+    #[verifier::external_body] fn vx_parse_usize(&self) -> (r: Result<usize, std::num::ParseIntError>) { self.parse::<usize>() }
+}
 }
